@@ -86,22 +86,23 @@ CLAIMED["C02"] = dict(
     text="Lean 4 model of the parser state machine (JV.Model.JsonParser: one arm per (parse_state, character) cell of json_parser.hpp, the number "
          "and string sub-automata, escapes and surrogate pairing, unicode_traits::validate, end-of-input and check_done), tied to the real parser "
          "on every run STATE BY STATE (guarded hook verif_inspect: state, number/string sub-state, level, state stack, buffer, code points after "
-         "every piece) and outcome by outcome (error code + event sequence) under whole / byte-by-byte / random chunkings. Proved for all inputs: "
-         "the model's UTF-8 validator accepts exactly RFC 3629 well-formed strings; its number sub-automaton accepts exactly the RFC 8259 number "
-         "production (both directions, against the reference parser's parseNumber); a number text is accepted as one event carrying the literal; "
-         "the nesting level of a non-failed parser never exceeds max_nesting_depth and the limit test is exact; COMPLETENESS for whole documents: every text the RFC 8259 "
-         "reference parser reads as value v (any nesting up to the limit, any white space incl. CR delays, every escape and surrogate pair) is accepted "
-         "by the model with exactly the events of v (parse_complete, by forward simulation over the reference's recursion); SOUNDNESS for "
-         "documents whose root is a literal, a number or a string without \\u escapes (parse_exact_scalars). The parser's case tables, error "
-         "codes, state enumerations, digit and UTF-8 tables are regenerated from the source on every run and proved equal to the RFC character "
-         "classes (C02X, decide). Accept/reject and value of the real parser are additionally judged on every run against the Lean RFC 8259 "
-         "reference parser: bounded-exhaustive token strings, generated+mutated documents, every comment/comma placement, depth limit-1/limit/limit+1.",
-    note="Partial: soundness (model accepts => the grammar derives the text) is proved only for scalar roots; for arrays/objects and strings with \\u escapes it "
-         "is decided per case (real parser = model = reference on every generated input); the model accepts two surrogate anomalies the reference gives "
-         "no value (a lone low surrogate escape is dropped; a high surrogate followed by any \\uXXXX is combined) - kernel-checked witnesses in Props/C02, the property assigns them no value. wchar_t is not "
-         "exercised. D80 (block comment ending in **/) was found while building the model and fixed; known finding D22 is listed.",
-    technique="Lean 4 theorems about a state-machine model of json_parser.hpp (UTF-8 validator = RFC 3629, number automaton = RFC 8259, depth bound) "
-              "+ state-level correspondence through a guarded hook + extracted tables (decide) + Lean RFC 8259 reference parser as oracle",
+         "every piece) and outcome by outcome (error code + event sequence) under whole / byte-by-byte / random chunkings. PROVED FOR ALL BYTE STRINGS, "
+         "with comments and trailing commas off: the model accepts a text if and only if the RFC 8259 reference grammar (JV.Spec.Rfc8259, any nesting "
+         "up to max_nesting_depth) derives it, and then reports exactly the events of the value the grammar assigns - structure, member names in "
+         "document order, string contents with every escape and surrogate pair decoded, number literals unchanged (parse_complete, parse_sound, "
+         "parse_exact) - except on texts with one of two surrogate-escape anomalies, which are characterised exactly by a decidable scan "
+         "(NoSurrogateAnomaly; disagreement_iff_anomaly: they are the ONLY divergence; the property assigns such texts no value). Also proved: the "
+         "UTF-8 validator accepts exactly RFC 3629; the number sub-automaton is the RFC 8259 number production; the nesting level never exceeds the "
+         "limit and the limit test is exact. The parser's case tables, error codes, state enumerations, digit and UTF-8 tables are regenerated from the "
+         "source on every run and proved equal to the RFC character classes (C02X, decide). The real parser is additionally judged on every run "
+         "against the reference: bounded-exhaustive token strings, generated+mutated documents, every comment/comma placement, depth limit-1/limit/limit+1; "
+         "first-duplicate-wins and number values by the decoder streams.",
+    note="Partial: exactness is proved for the configurations with allow_comments and allow_trailing_comma off; with either option on, 'relaxes exactly "
+         "that construct' is decided per case (real parser = model = reference with the matching flag on every generated input). The theorems are about "
+         "the model; the model is tied to json_parser.hpp by the state-level correspondence on generated inputs, not by proof. wchar_t is not exercised. "
+         "D80 (block comment ending in **/) was found while building the model and fixed; known finding D22 (comment after the root value) is listed.",
+    technique="Lean 4 theorems: the state-machine model of json_parser.hpp accepts exactly the RFC 8259 grammar with the specified events (both directions, "
+              "all inputs) + state-level correspondence through a guarded hook + extracted tables (decide) + Lean RFC 8259 reference parser as oracle",
     design="§5 C02, §9.2")
 CLAIMED["C03"] = dict(
     text="Lean 4 proofs: (1) for every way of cutting a text into pieces (any number, any sizes, empty pieces included) the parser model "
@@ -119,22 +120,23 @@ CLAIMED["C03"] = dict(
     design="§5 C03, §9.2")
 
 CLAIMED["C06"] = dict(
-    text="Lean 4 proofs that the encoder models of CBOR, MessagePack and UBJSON (each tied BYTE FOR BYTE to encode_cbor / encode_msgpack / "
-         "encode_ubjson on every run, every width boundary +-1 included) write, for every value of the data-model core (null, bool, all int64/uint64 "
+    text="Lean 4 proofs that the encoder models of CBOR, MessagePack, UBJSON and BSON (each tied BYTE FOR BYTE to encode_cbor / encode_msgpack / "
+         "encode_ubjson / encode_bson on every run, every width boundary +-1 included) write, for every value of the data-model core (null, bool, all int64/uint64 "
          "- UBJSON: up to 2^63-1, above that the encoder refuses and so does the model -, doubles incl. the float32-when-exact shortcut, UTF-8 text, "
-         "byte strings, arrays, maps, any nesting), bytes that the format's reference decoder (RFC 8949 / MessagePack spec / UBJSON draft 12, the same "
+         "byte strings, arrays, maps, any nesting), bytes that the format's reference decoder (RFC 8949 / MessagePack spec / UBJSON draft 12 / BSON 1.1 - root documents and root arrays, int32/int64 by magnitude, "
+         "cstring names, arrays as documents keyed by the decimal index, back-patched lengths -, the same "
          "ones the real decoders are judged against in C07) reads back as exactly that value under the documented mapping (UBJSON byte strings come "
          "back as arrays of integers); all integer and length width boundaries are inside the case splits (cbor_roundtrip, msgpack_roundtrip, "
-         "ubjson_roundtrip and the per-head lemmas). CBOR big floats: text/bytes round trip for every mantissa and exponent. Tags, string packing, "
-         "typed arrays, bignum magnitudes on both sides of every length-header boundary and the BSON round trip are decided per case on the real code.",
-    note="Partial: BSON and all tag handling are validated by differential round-trip testing only; doubles in the binary32-subnormal exponent band "
+         "ubjson_roundtrip, bson_roundtrip_decode and the per-head lemmas). CBOR big floats: text/bytes round trip for every mantissa and exponent. Tags, string packing, "
+         "typed arrays and bignum magnitudes on both sides of every length-header boundary are decided per case on the real code.",
+    note="Partial: all tag handling (and BSON's non-core element types) are validated by differential round-trip testing only; doubles in the binary32-subnormal exponent band "
          "carry the side condition DoubleOK (checked per case); MessagePack lengths >= 2^32 are outside OKm (the encoder writes no head there; "
          "unreachable in practice). D26 (stringref vs bignums), D79 (bigfloat with bignum mantissa) found and fixed.",
-    technique="Lean 4 theorems (encode/decode round trip for CBOR, MessagePack, UBJSON on the core, all values) + byte-exact correspondence of the three "
+    technique="Lean 4 theorems (encode/decode round trip for CBOR, MessagePack, UBJSON, BSON on the core, all values) + byte-exact correspondence of the four "
               "encoder models + round-trip oracle",
     design="§5 C06, §9.2")
 CLAIMED["C07"] = dict(
-    text="The real CBOR, MessagePack, UBJSON and BSON decoders are compared on every run with reference decoders written in Lean 4 from the "
+    text="Lean 4 model of the REAL CBOR decoder (JV.Model.CborParser = cbor_parser.hpp: read_item dispatch, read_uint64 / read_int64 / read_size / read_double, definite and chunked strings with per-chunk UTF-8 validation, definite and indefinite arrays and maps, break handling, simple values, the nesting check, non-text map keys as the generic visitor renders them; tags, stringrefs and typed arrays answer skip), tied to the real decoder outcome by outcome (value or cbor_errc code) on ~60k inputs per run, and PROVED for all inputs and all depth limits to refine the RFC 8949 reference decoder (cbor_parser_model_refines_spec: equal value and rest whenever both give one; the model never accepts ill-formed input; it may additionally refuse for max_nesting_depth_exceeded / number_too_large). The real CBOR, MessagePack, UBJSON and BSON decoders are compared on every run with reference decoders written in Lean 4 from the "
          "specifications, on outputs of independent reference encoders in every legal width and form, mutations, every strict prefix and every 1-2 "
          "(thorough: sampled 3) byte string. Proved about the CBOR reference: integers of all five widths and both majors are read back exactly from "
          "the encoder model's head, reserved additional information 28-31 and truncated heads are ill-formed for every continuation."
@@ -148,7 +150,10 @@ CLAIMED["C08"] = dict(
     text="Lean 4 proof about the encoders' container-length bookkeeping (model of cbor_encoder.hpp's stack): event sequences whose announced lengths "
          "are exact are accepted at any nesting, wrong announcements are refused with too_few/too_many; with C06's round trip this gives well-formed, "
          "faithful CBOR on the core. All four binary encoders and both JSON encoders on generated event sequences, MessagePack timestamps and "
-         "transcoding between every pair of formats are decided per case, outputs judged by the Lean reference decoders / RFC 8259 parser.",
+         "transcoding between every pair of formats are decided per case, outputs judged by the Lean reference decoders / RFC 8259 parser."
+         " Event-level theorems for the four modelled encoders (CBOR, MessagePack, UBJSON stateless emit; BSON a stateful step over a frame stack with back-patching): "
+         "feeding the events of any value in the domain yields bytes that the reference decoder maps back to that value (cbor/msgpack/ubjson/bson_output_denotes_input), "
+         "the models being tied to the real *_bytes_encoder event by event (stream encoder-events-model, wrong announced lengths and refusals included).",
     note="Partial: proof covers the length bookkeeping and (via C06) CBOR core bytes; other encoders validated by differential testing. D27, D28 fixed; D13 listed.",
     technique="Lean 4 theorems (length bookkeeping; CBOR output denotes input) + outputs judged by Lean reference decoders",
     design="§5 C08")
